@@ -145,7 +145,7 @@ func e2eFormsWorker(args []string) error {
 		_ = os.WriteFile(p.Trace+".summary", b, 0o644)
 	}()
 
-	cfg := agent.Cfg{N4Addr: p.N4Addr, Datapath: "bess", LogLevel: "error", ReadTimeout: 120, RespTimeout: "2s", MaxReqRetries: 5}
+	cfg := agent.Cfg{N4Addr: p.N4Addr, Datapath: "bess", LogLevel: "warn", ReadTimeout: 120, RespTimeout: "2s", MaxReqRetries: 5}
 
 	w, err := e2e.NewWorld(filepath.Join(p.Dir, "w"), p.AgentBin, p.Trace, cfg, int(p.Seed%1000)*1000+1)
 	if err != nil {
